@@ -885,12 +885,15 @@ def obligations(tier: str) -> list[dict]:
 
     outers = ['if', 'while', 'dowhile', 'dtd', 'pardo', 'pardof', 'pardo3', 'seq', 'foreach']
     if tier == 'quick':
-        T = 900      # sized for < 200 s on an idle machine; generous because the box is shared
+        T = 300
         ob('circ/pre2/W3', 'circ', {'W': 3, 'npre': 2, 'kinds': [], 'codes': [1, 2, 5], 'prepop': False}, T)
         ob('circ/pre2/W2/gaps', 'circ', {'W': 2, 'npre': 2, 'kinds': [], 'codes': [1, 2, 5, 6]}, T)
         ob('circ/pre3/W2', 'circ', {'W': 2, 'npre': 3, 'kinds': [], 'codes': [1, 5], 'prepop': False}, T)
         for k in HIST:
-            ob('circ/%s/W2' % k, 'circ', {'W': 2, 'npre': 1, 'kinds': [k], 'battery': k in ('fold', 'unfold', 'pop')}, T)
+            sh = {'W': 2, 'npre': 1, 'kinds': [k], 'battery': k in ('fold', 'unfold', 'pop')}
+            if k in ('batch_pop', 'append_circuit', 'batch_replace'):
+                sh['codes'] = [1, 2, 5]
+            ob('circ/%s/W2' % k, 'circ', sh, T)
         for k in HIST_W3_CHEAP:
             ob('circ/%s/W3' % k, 'circ', {'W': 3, 'npre': 1, 'kinds': [k], 'codes': [1, 2, 3, 5], 'battery': False}, T)
         for k in MUT_QUICK:
@@ -929,7 +932,7 @@ def obligations(tier: str) -> list[dict]:
         ob('pd/placement-x-graph/M4', 'pd', {'M': 4, 'maps': False}, T)
         ob('pd/scalars-x-graph', 'pd', {'maps': False, 'graph': True, 'scalars': True}, T)
         for o in outers + ['pardof3']:
-            ob('wf/%s' % o, 'wf', {'outer': o, 'preds': ['s', 'n', 'a', 'o', 'c', 'g'], 'nest_all': o != 'pardof3'}, T)
+            ob('wf/%s' % o, 'wf', {'outer': o, 'preds': ['s', 'n', 'a', 'o', 'c', 'g'], 'nest_all': o not in ('pardo3', 'pardof3')}, T)
         ob('graph/n5/remote', 'graph', {'n': 5, 'remote': True}, T)
         ob('graph/n6', 'graph', {'n': 6}, T)
         ob('gate/samples', 'gate', {}, T)
